@@ -338,18 +338,24 @@ func (c *checker) runCase(k *caseCtx) {
 	base := tmpl{serial: s.serial.mag, sigAlg: is.caKey.SigAlgDER(), issuer: is.caName, notBefore: s.val.nb, notAfter: s.val.na,
 		subject: subj, spki: pki.LoadKey(s.subjKey).SPKI, issuerUID: s.uid.iss, subjectUID: s.uid.sub}
 	leafAKI := s.lay.hasAKI()
+	// the (pre)certificate's own AKI extension is marked critical in half of the layouts that have one (rotating
+	// with the layout): the transformation replaces the AKI's value, the flag is the certificate's own
+	akiX := akiExt
+	if leafAKI && (len(s.lay.nbs)+s.lay.pos)%2 == 1 {
+		akiX = func(value []byte) []byte { return pki.Ext{OID: pki.OIDAKI, Critical: true, Value: value}.DER() }
+	}
 	var akiFinal []byte // AKI extension of the final certificate and of the log entry
 	appendAKI := false
 	switch {
 	case direct:
 		if leafAKI {
-			akiFinal = akiExt(pki.ExtAKI(is.caKeyID).Value)
+			akiFinal = akiX(pki.ExtAKI(is.caKeyID).Value)
 		}
 	case is.preAKI[v] != nil:
-		akiFinal = akiExt(is.preAKI[v])
+		akiFinal = akiX(is.preAKI[v])
 		appendAKI = !leafAKI
 	}
-	akiP := akiExt(pki.ExtAKI(signerKeyID).Value)
+	akiP := akiX(pki.ExtAKI(signerKeyID).Value)
 	extsR := resolve(al, s.lay.nbs, akiFinal)
 	if appendAKI {
 		extsR = append(extsR, akiFinal)
